@@ -39,6 +39,9 @@ type Case struct {
 	// Prios: owner i gets priority 10*(Prios[i]+1); nil = ascending (the order in which the intents are written is
 	// always the owner order, so a permutation decouples write order from precedence)
 	Prios []int `json:"prios,omitempty"`
+	// Broken: this many further deviation clients whose Send fails from the first message on (a peer that is gone
+	// but not removed yet); the healthy clients must still get the complete cycle
+	Broken int `json:"broken,omitempty"`
 }
 
 func gen(t *rapid.T) *Case {
@@ -49,6 +52,9 @@ func gen(t *rapid.T) *Case {
 		c.Forms = append(c.Forms, rapid.SampledFrom([]string{"typed", "string", "json"}).Draw(t, "form"))
 	}
 	c.Prios = rapid.Permutation([]int{0, 1, 2}).Draw(t, "prios")[:n]
+	if rapid.IntRange(0, 3).Draw(t, "broken-clients") == 2 {
+		c.Broken = rapid.IntRange(1, 3).Draw(t, "nbroken")
+	}
 	collide := rapid.IntRange(0, 5).Draw(t, "colliding-entries") == 2
 	if collide {
 		// two entries of the two-key list whose textual forms collide under a "/"-join: (a, a/a) and (a/a, a)
@@ -67,7 +73,7 @@ func gen(t *rapid.T) *Case {
 
 var prop = vlib.Prop[*Case]{
 	ID: "C15",
-	Rule: "case = intended store built by transactions of 1..3 owners written in an order independent of their precedence (overlapping paths, every leaf type incl. decimal64, uint64, identityref, union, binary, leaf-lists, a non-alphabetical 2-key list; typed / string / JSON input so that stored and running representations can differ) + perturbations of the running store (changed, deleted, extra unhandled paths) + 1..2 deviation streams; one cycle is triggered through hook H3; " +
+	Rule: "case = intended store built by transactions of 1..3 owners written in an order independent of their precedence (overlapping paths, every leaf type incl. decimal64, uint64, identityref, union, binary, leaf-lists, a non-alphabetical 2-key list; typed / string / JSON input so that stored and running representations can differ) + perturbations of the running store (changed, deleted, extra unhandled paths) + 1..2 deviation streams (sometimes next to 1..3 clients whose Send fails); one cycle is triggered through hook H3; " +
 		"oracle = per stream: first message START, last END, each once; in between exactly the multiset derived from the two store dumps: UNHANDLED(path, current) for a running path no intent defines, NOT_APPLIED(ruling intent, path, expected = ruling value, current = running value or absent) iff running differs from or lacks the ruling value, OVERRULED(lower intent, path, its value, ruling value) iff its value differs from the ruling one, nothing where running and all intents agree; values compared by denotation; " +
 		"non-trivial = the state has paths in at least three of the four categories (agreeing, NOT_APPLIED, OVERRULED, UNHANDLED); distinct = distinct case JSON",
 	Gen:  gen,
@@ -247,6 +253,12 @@ func Exec(c *Case) (nontrivial bool, labels []string, fail *vlib.Failure) {
 		fs := vlib.NewFakeStream[sdcpb.WatchDeviationResponse](ctx)
 		recs = append(recs, fs)
 		streams[fmt.Sprintf("peer%d", i)] = fs
+	}
+	for i := 0; i < c.Broken; i++ {
+		fs := vlib.NewFakeStream[sdcpb.WatchDeviationResponse](ctx)
+		fs.FailFrom = 0
+		streams[fmt.Sprintf("broken%d", i)] = fs
+		lab["broken-client-present"] = true
 	}
 	h.DS.VerifRunDeviationCycle(ctx, streams)
 	for si, fs := range recs {
